@@ -1,25 +1,36 @@
 import TunnoxModel.Proofs.C17
-/-! C17, invariant B: count-then-create inside one per-instance mutex (`code`, `mapq`). -/
+/-! C17, invariant B: count-then-create inside one per-instance mutex (`code`, `mapq`), with
+requests queueing up in `Lock()` and the FIFO hand-over of `Unlock()`. -/
 namespace Tunnox.C17
+
+/-- The thread is inside the critical section (holds the mutex). -/
+def inside : PC → Bool
+  | .idle => false
+  | .waiting => false
+  | _ => true
 
 /-- Facts about one thread when every request goes through instance `I`. -/
 structure TOk (P : Proto) (limit I occLen : Nat) (locks : List Nat) (t : Thread) : Prop where
   inst : t.ops ≠ [] → t.inst = I
-  held : t.pc ≠ .idle → t.inst = I ∧ I ∈ locks
+  winst : t.pc ≠ .idle → t.inst = I
+  held : inside t.pc = true → I ∈ locks
   cnt : ∀ snap k, t.pc = .counting snap k → occLen ≤ snap
   pas : ∀ snap k, t.pc = .passed snap k → occLen ≤ snap ∧ full P limit snap = false
 
 structure InvB (P : Proto) (limit pre I : Nat) (c : Cfg) : Prop where
   base : Base P.zeroUnl limit pre c
   thr : ∀ i, TOk P limit I c.occ.length c.locks (c.threads i)
-  excl : ∀ i j, (c.threads i).pc ≠ .idle → (c.threads j).pc ≠ .idle → i = j
+  excl : ∀ i j, inside (c.threads i).pc = true → inside (c.threads j).pc = true → i = j
+
+theorem inside_counting {pc : PC} {s k : Nat} (h : pc = .counting s k) : inside pc = true := by rw [h]; rfl
+theorem inside_passed {pc : PC} {s k : Nat} (h : pc = .passed s k) : inside pc = true := by rw [h]; rfl
 
 /-- One thread, the occupancy and the lock set change; the other threads keep their facts. -/
 theorem invB_upd {P : Proto} {limit pre I : Nat} {c : Cfg} (h : InvB P limit pre I c) (tid : Nat) (t' : Thread)
     (c' : Cfg) (hb : Base P.zeroUnl limit pre c') (hthr : c'.threads = upd c.threads tid t')
     (ht' : TOk P limit I c'.occ.length c'.locks t')
-    (hother : ∀ j, j ≠ tid → (c.threads j).pc ≠ .idle → c'.occ.length ≤ c.occ.length ∧ I ∈ c'.locks)
-    (hex : t'.pc ≠ .idle → ∀ j, j ≠ tid → (c.threads j).pc = .idle) : InvB P limit pre I c' := by
+    (hother : ∀ j, j ≠ tid → inside (c.threads j).pc = true → c'.occ.length ≤ c.occ.length ∧ I ∈ c'.locks)
+    (hex : inside t'.pc = true → ∀ j, j ≠ tid → inside (c.threads j).pc = false) : InvB P limit pre I c' := by
   refine ⟨hb, ?_, ?_⟩
   · intro i
     rw [hthr]
@@ -27,14 +38,12 @@ theorem invB_upd {P : Proto} {limit pre I : Nat} {c : Cfg} (h : InvB P limit pre
     · subst hi; rw [upd_self]; exact ht'
     · rw [upd_ne _ _ _ _ hi]
       have old := h.thr i
-      refine ⟨old.inst, ?_, ?_, ?_⟩
-      · intro hpc; exact ⟨(old.held hpc).1, (hother i hi hpc).2⟩
+      refine ⟨old.inst, old.winst, ?_, ?_, ?_⟩
+      · intro hpc; exact (hother i hi hpc).2
       · intro snap k hpc
-        have hne : (c.threads i).pc ≠ .idle := by rw [hpc]; simp
-        exact Nat.le_trans (hother i hi hne).1 (old.cnt snap k hpc)
+        exact Nat.le_trans (hother i hi (inside_counting hpc)).1 (old.cnt snap k hpc)
       · intro snap k hpc
-        have hne : (c.threads i).pc ≠ .idle := by rw [hpc]; simp
-        exact ⟨Nat.le_trans (hother i hi hne).1 (old.pas snap k hpc).1, (old.pas snap k hpc).2⟩
+        exact ⟨Nat.le_trans (hother i hi (inside_passed hpc)).1 (old.pas snap k hpc).1, (old.pas snap k hpc).2⟩
   · intro i j hi hj
     rw [hthr] at hi hj
     by_cases e1 : i = tid
@@ -43,73 +52,134 @@ theorem invB_upd {P : Proto} {limit pre I : Nat} {c : Cfg} (h : InvB P limit pre
       · subst e1
         rw [upd_self] at hi
         rw [upd_ne _ _ _ _ e2] at hj
-        exact absurd (hex hi j e2) hj
+        rw [hex hi j e2] at hj; cases hj
     · by_cases e2 : j = tid
       · subst e2
         rw [upd_self] at hj
         rw [upd_ne _ _ _ _ e1] at hi
-        exact absurd (hex hj i e1) hi
+        rw [hex hj i e1] at hi; cases hi
       · rw [upd_ne _ _ _ _ e1] at hi
         rw [upd_ne _ _ _ _ e2] at hj
         exact h.excl i j hi hj
 
-/-- The stepping thread is the one inside the critical section: everybody else is idle. -/
-theorem others_idle {P : Proto} {limit pre I : Nat} {c : Cfg} (h : InvB P limit pre I c) (tid : Nat)
-    (hpc : (c.threads tid).pc ≠ .idle) : ∀ j, j ≠ tid → (c.threads j).pc = .idle := by
+/-- The stepping thread is the one inside the critical section: nobody else is. -/
+theorem others_out {P : Proto} {limit pre I : Nat} {c : Cfg} (h : InvB P limit pre I c) (tid : Nat)
+    (hpc : inside (c.threads tid).pc = true) : ∀ j, j ≠ tid → inside (c.threads j).pc = false := by
   intro j hj
-  apply Classical.byContradiction
-  intro hne
-  exact hj (h.excl j tid hne hpc)
+  cases hin : inside (c.threads j).pc with
+  | false => rfl
+  | true => exact absurd (h.excl j tid hin hpc) hj
 
 theorem idleThread_ok {P : Proto} {limit I n : Nat} {locks : List Nat} (t t' : Thread)
     (hpc : t'.pc = .idle) (hinst : t'.inst = t.inst) (hops : t'.ops ≠ [] → t.ops ≠ [])
     (ho : t.ops ≠ [] → t.inst = I) : TOk P limit I n locks t' := by
-  refine ⟨?_, ?_, ?_, ?_⟩
+  refine ⟨?_, ?_, ?_, ?_, ?_⟩
   · intro hh; rw [hinst]; exact ho (hops hh)
   · intro hh; exact absurd hpc hh
+  · intro hh; rw [hpc] at hh; cases hh
   · intro s k hh; rw [hpc] at hh; cases hh
   · intro s k hh; rw [hpc] at hh; cases hh
 
 theorem tail_ne_nil {α} (l : List α) (h : l.tail ≠ []) : l ≠ [] := by
   intro e; rw [e] at h; exact h rfl
 
+/-- `Unlock()` when nobody is inside any more: the first waiter enters, or the mutex becomes free. -/
+theorem invB_handover {P : Proto} {limit pre I : Nat} {c : Cfg} (h : InvB P limit pre I c) (inst : Nat)
+    (hinst : inst = I) (hnone : ∀ j, inside (c.threads j).pc = false) (hI : I ∈ c.locks) :
+    InvB P limit pre I (handover c inst) := by
+  unfold handover
+  split
+  · rename_i t hfind
+    have hp := List.find?_some hfind
+    simp only [Bool.and_eq_true, decide_eq_true_eq] at hp
+    have old := h.thr t
+    refine invB_upd h t { c.threads t with pc := .locked } _ ?_ rfl ?_ ?_ ?_
+    · exact base_congr h.base rfl rfl rfl
+    · refine ⟨old.inst, fun _ => by rw [← hinst]; exact hp.2, fun _ => hI, ?_, ?_⟩
+      · intro s k hh; cases hh
+      · intro s k hh; cases hh
+    · intro j _ hj; rw [hnone j] at hj; cases hj
+    · intro _ j _; exact hnone j
+  · refine ⟨base_congr h.base rfl rfl rfl, ?_, h.excl⟩
+    intro i
+    have old := h.thr i
+    refine ⟨old.inst, old.winst, ?_, old.cnt, old.pas⟩
+    intro hh; rw [hnone i] at hh; cases hh
+
+/-- After the thread inside has finished its operation nobody is inside. -/
+theorem none_inside_after {c : Cfg} (tid : Nat) (t' : Thread) (ht' : t'.pc = .idle)
+    (hid : ∀ j, j ≠ tid → inside (c.threads j).pc = false) :
+    ∀ j, inside (upd c.threads tid t' j).pc = false := by
+  intro j
+  by_cases hj : j = tid
+  · subst hj; rw [upd_self, ht']; rfl
+  · rw [upd_ne _ _ _ _ hj]; exact hid j hj
+
 /-- Refusal inside the critical section. -/
 theorem invB_refuse {P : Proto} {limit pre I : Nat} {c : Cfg} (h : InvB P limit pre I c) (tid : Nat)
-    (hpc : (c.threads tid).pc ≠ .idle) : InvB P limit pre I (refuseCfg P c tid) := by
-  have hid := others_idle h tid hpc
-  apply invB_upd h tid (finishOp (c.threads tid)) _ (base_refuse P h.base tid) rfl
-  · exact idleThread_ok (c.threads tid) _ rfl rfl (fun hh => tail_ne_nil _ hh) (h.thr tid).inst
-  · intro j hj hne; exact absurd (hid j hj) hne
-  · intro hh; exact absurd rfl hh
+    (hm : P.mutex = true) (hpc : inside (c.threads tid).pc = true) : InvB P limit pre I (refuseCfg P c tid) := by
+  have hid := others_out h tid hpc
+  have old := h.thr tid
+  have hne : (c.threads tid).pc ≠ .idle := by intro e; rw [e] at hpc; cases hpc
+  have h1 : InvB P limit pre I (refuseCore c tid) := by
+    refine invB_upd h tid (finishOp (c.threads tid)) _ (base_refuseCore h.base tid) rfl ?_ ?_ ?_
+    · exact idleThread_ok (c.threads tid) _ rfl rfl (fun hh => tail_ne_nil _ hh) old.inst
+    · intro j hj hin; rw [hid j hj] at hin; cases hin
+    · intro hh; cases hh
+  unfold refuseCfg unlockCfg
+  simp only [hm, if_true]
+  exact invB_handover h1 _ (old.winst hne) (none_inside_after tid _ rfl hid) (old.held hpc)
+
+theorem invB_done {P : Proto} {limit pre I : Nat} {c : Cfg} (h : InvB P limit pre I c) (tid : Nat)
+    (hm : P.mutex = true) (hpc : inside (c.threads tid).pc = true) : InvB P limit pre I (doneCfg P c tid) := by
+  have hid := others_out h tid hpc
+  have old := h.thr tid
+  have hne : (c.threads tid).pc ≠ .idle := by intro e; rw [e] at hpc; cases hpc
+  have h1 : InvB P limit pre I (stpCfg c tid (finishOp (c.threads tid)) c.locks) := by
+    apply invB_upd h tid (finishOp (c.threads tid)) _ (base_stp h.base tid _ _) rfl
+    · exact idleThread_ok (c.threads tid) _ rfl rfl (fun hh => tail_ne_nil _ hh) old.inst
+    · intro j hj hin; rw [hid j hj] at hin; cases hin
+    · intro hh; cases hh
+  unfold doneCfg unlockCfg
+  simp only [hm, if_true]
+  exact invB_handover h1 _ (old.winst hne) (none_inside_after tid _ rfl hid) (old.held hpc)
 
 theorem invB_admit {P : Proto} {limit pre I : Nat} {c : Cfg} (h : InvB P limit pre I c) (tid : Nat)
-    (hpc : (c.threads tid).pc ≠ .idle) (hcap : capOk P.zeroUnl limit (c.occ.length + 1) = true) :
+    (hm : P.mutex = true) (hpc : inside (c.threads tid).pc = true)
+    (hcap : capOk P.zeroUnl limit (c.occ.length + 1) = true) :
     InvB P limit pre I (admitCfg P c tid c.occ none) := by
-  have hid := others_idle h tid hpc
-  apply invB_upd h tid { finishOp (c.threads tid) with own := some c.next } _ (base_admit P h.base tid hcap) rfl
-  · exact idleThread_ok (c.threads tid) _ rfl rfl (fun hh => tail_ne_nil _ hh) (h.thr tid).inst
-  · intro j hj hne; exact absurd (hid j hj) hne
-  · intro hh; exact absurd rfl hh
+  have hid := others_out h tid hpc
+  have old := h.thr tid
+  have hne : (c.threads tid).pc ≠ .idle := by intro e; rw [e] at hpc; cases hpc
+  have h1 : InvB P limit pre I (admitCore c tid c.occ none) := by
+    refine invB_upd h tid { finishOp (c.threads tid) with own := some c.next } _ (base_admitCore h.base tid hcap) rfl ?_ ?_ ?_
+    · exact idleThread_ok (c.threads tid) _ rfl rfl (fun hh => tail_ne_nil _ hh) old.inst
+    · intro j hj hin; rw [hid j hj] at hin; cases hin
+    · intro hh; cases hh
+  unfold admitCfg unlockCfg
+  simp only [hm, if_true]
+  exact invB_handover h1 _ (old.winst hne) (none_inside_after tid _ rfl hid) (old.held hpc)
 
 /-- An intermediate step of the thread inside the critical section. -/
 theorem invB_stp_in {P : Proto} {limit pre I : Nat} {c : Cfg} (h : InvB P limit pre I c) (tid : Nat) (pc' : PC)
-    (hpc : (c.threads tid).pc ≠ .idle)
+    (hpc : inside (c.threads tid).pc = true)
     (hc : ∀ snap k, pc' = .counting snap k → c.occ.length ≤ snap)
     (hp : ∀ snap k, pc' = .passed snap k → c.occ.length ≤ snap ∧ full P limit snap = false) :
     InvB P limit pre I (stpCfg c tid { c.threads tid with pc := pc' } c.locks) := by
-  have hid := others_idle h tid hpc
+  have hid := others_out h tid hpc
   have old := h.thr tid
+  have hne : (c.threads tid).pc ≠ .idle := by intro e; rw [e] at hpc; cases hpc
   apply invB_upd h tid { c.threads tid with pc := pc' } _ (base_stp h.base tid _ _) rfl
-  · exact ⟨old.inst, fun _ => old.held hpc, hc, hp⟩
-  · intro j hj hne; exact absurd (hid j hj) hne
+  · exact ⟨old.inst, fun _ => old.winst hne, fun _ => old.held hpc, hc, hp⟩
+  · intro j hj hin; rw [hid j hj] at hin; cases hin
   · intro _; exact hid
 
 theorem invB_check {P : Proto} {limit pre I : Nat} {c : Cfg} (h : InvB P limit pre I c) (tid snap : Nat)
-    (hpc : (c.threads tid).pc ≠ .idle) (hs : c.occ.length ≤ snap) :
+    (hm : P.mutex = true) (hpc : inside (c.threads tid).pc = true) (hs : c.occ.length ≤ snap) :
     InvB P limit pre I (checkStep P limit c tid snap) := by
   unfold checkStep
   cases hfull : full P limit snap with
-  | true => simpa using invB_refuse h tid hpc
+  | true => simpa using invB_refuse h tid hm hpc
   | false =>
     simp only [Bool.false_eq_true, if_false]
     apply invB_stp_in h tid _ hpc
@@ -118,66 +188,89 @@ theorem invB_check {P : Proto} {limit pre I : Nat} {c : Cfg} (h : InvB P limit p
       simp only [PC.passed.injEq] at hh
       rw [← hh.1]; exact ⟨hs, hfull⟩
 
+theorem invB_noise {P : Proto} {limit pre I : Nat} {c : Cfg} (h : InvB P limit pre I c) (tid : Nat)
+    (hm : P.mutex = true) (hpc : inside (c.threads tid).pc = true) :
+    InvB P limit pre I (noiseStep P limit c tid) := by
+  unfold noiseStep
+  split
+  · split
+    · exact invB_done h tid hm hpc
+    · exact invB_stp_in h tid _ hpc (by intro s k hh; cases hh) (by intro s k hh; cases hh)
+  · exact invB_done h tid hm hpc
+
+/-- `Lock()`: enter when nobody is inside, else queue up. -/
+theorem invB_lock {P : Proto} {limit pre I : Nat} {c : Cfg} (h : InvB P limit pre I c) (tid : Nat)
+    (hI : (c.threads tid).inst = I) (hidle : (c.threads tid).pc = .idle) :
+    InvB P limit pre I (lockStep c tid) := by
+  have old := h.thr tid
+  unfold lockStep
+  by_cases hl : (c.threads tid).inst ∈ c.locks
+  · simp only [hl, if_true]
+    refine invB_upd h tid { c.threads tid with pc := .waiting } (waitCfg c tid) (base_blk h.base tid rfl rfl rfl) rfl ?_ ?_ ?_
+    · refine ⟨old.inst, fun _ => hI, fun hh => (by cases hh), ?_, ?_⟩
+      · intro s k hh; cases hh
+      · intro s k hh; cases hh
+    · intro j _ hj; exact ⟨Nat.le_refl _, (h.thr j).held hj⟩
+    · intro hh; cases hh
+  · simp only [hl, if_false]
+    have hfree : ∀ j, inside (c.threads j).pc = false := by
+      intro j
+      cases hin : inside (c.threads j).pc with
+      | false => rfl
+      | true =>
+        have := (h.thr j).held hin
+        rw [← hI] at this
+        exact absurd this hl
+    apply invB_upd h tid { c.threads tid with pc := .locked } _ (base_stp h.base tid _ _) rfl
+    · refine ⟨old.inst, fun _ => hI, fun _ => ?_, ?_, ?_⟩
+      · simp only [stpCfg, hI]; exact List.mem_cons_self
+      · intro s k hh; cases hh
+      · intro s k hh; cases hh
+    · intro j _ hj; rw [hfree j] at hj; cases hj
+    · intro _ j _; exact hfree j
+
 theorem invB_step {P : Proto} {limit pre I : Nat} {c : Cfg} (h : InvB P limit pre I c) (tid : Nat)
-    (hm : P.mutex = true) (he : P.early = true) (hf : P.final = .plain) :
+    (hm : P.mutex = true) (he : P.early = true) (hf : P.final = .plain) (hfu : P.fused = false) :
     InvB P limit pre I (stepThread P limit c tid) := by
   have old := h.thr tid
   unfold stepThread
   split
   · exact h
   · -- release
-    rename_i hops
-    have hne : (c.threads tid).ops ≠ [] := by rw [hops]; simp
     split
     · apply invB_upd h tid { finishOp (c.threads tid) with own := none } _ (base_nop h.base tid) rfl
       · exact idleThread_ok (c.threads tid) _ rfl rfl (fun hh => tail_ne_nil _ hh) old.inst
-      · intro j _ hj; exact ⟨Nat.le_refl _, ((h.thr j).held hj).2⟩
-      · intro hh; exact absurd rfl hh
+      · intro j _ hj; exact ⟨Nat.le_refl _, (h.thr j).held hj⟩
+      · intro hh; cases hh
     · rename_i it _
       by_cases hin : it ∈ c.occ
       · simp only [hin, if_true]
         apply invB_upd h tid { finishOp (c.threads tid) with own := none } _ (base_rel h.base tid it _ hin) rfl
         · exact idleThread_ok (c.threads tid) _ rfl rfl (fun hh => tail_ne_nil _ hh) old.inst
-        · intro j _ hj; exact ⟨erase_length_le _ _, ((h.thr j).held hj).2⟩
-        · intro hh; exact absurd rfl hh
+        · intro j _ hj; exact ⟨erase_length_le _ _, (h.thr j).held hj⟩
+        · intro hh; cases hh
       · simp only [hin, if_false]
         apply invB_upd h tid { finishOp (c.threads tid) with own := none } _ (base_nop h.base tid) rfl
         · exact idleThread_ok (c.threads tid) _ rfl rfl (fun hh => tail_ne_nil _ hh) old.inst
-        · intro j _ hj; exact ⟨Nat.le_refl _, ((h.thr j).held hj).2⟩
-        · intro hh; exact absurd rfl hh
-  · -- admit
+        · intro j _ hj; exact ⟨Nat.le_refl _, (h.thr j).held hj⟩
+        · intro hh; cases hh
+  · -- acquire
     rename_i hops
     have hne : (c.threads tid).ops ≠ [] := by rw [hops]; simp
     have hI : (c.threads tid).inst = I := old.inst hne
     split
-    · -- idle: take the mutex or wait
-      rename_i hpc
-      simp only [hm, if_true]
-      by_cases hl : (c.threads tid).inst ∈ c.locks
-      · simp only [hl, if_true]
-        exact ⟨base_blk h.base tid, h.thr, h.excl⟩
-      · simp only [hl, if_false]
-        have hfree : ∀ j, (c.threads j).pc = .idle := by
-          intro j
-          apply Classical.byContradiction
-          intro hj
-          have := ((h.thr j).held hj).2
-          rw [← hI] at this
-          exact hl this
-        apply invB_upd h tid { c.threads tid with pc := .locked } _ (base_stp h.base tid _ _) rfl
-        · refine ⟨old.inst, fun _ => ⟨hI, ?_⟩, ?_, ?_⟩
-          · simp only [stpCfg, hI]; exact List.mem_cons_self
-          · intro s k hh; cases hh
-          · intro s k hh; cases hh
-        · intro j _ hj; exact absurd (hfree j) hj
-        · intro _ j _; exact hfree j
+    · rename_i hpc
+      simp only [hm, hfu, if_true, Bool.false_eq_true, if_false]
+      exact invB_lock h tid hI hpc
+    · exact ⟨base_blk (c' := blkCfg c tid) h.base tid rfl rfl rfl, h.thr, h.excl⟩
     · -- locked: read
       rename_i hpc
-      have hni : (c.threads tid).pc ≠ .idle := by rw [hpc]; simp
+      have hni : inside (c.threads tid).pc = true := by rw [hpc]; rfl
+      simp only [hfu, Bool.false_eq_true, if_false]
       unfold readStep
       simp only [he, if_true]
       by_cases hc : P.cnt c.occ.length = 0
-      · simp only [hc, if_true]; exact invB_check h tid _ hni (Nat.le_refl _)
+      · simp only [hc, if_true]; exact invB_check h tid _ hm hni (Nat.le_refl _)
       · simp only [hc, if_false]
         apply invB_stp_in h tid _ hni
         · intro s k hh
@@ -186,10 +279,10 @@ theorem invB_step {P : Proto} {limit pre I : Nat} {c : Cfg} (h : InvB P limit pr
         · intro s k hh; cases hh
     · -- counting
       rename_i snap k hpc
-      have hni : (c.threads tid).pc ≠ .idle := by rw [hpc]; simp
+      have hni : inside (c.threads tid).pc = true := by rw [hpc]; rfl
       have hs := old.cnt snap k hpc
       by_cases hk : k ≤ 1
-      · simp only [hk, if_true]; exact invB_check h tid snap hni hs
+      · simp only [hk, if_true]; exact invB_check h tid snap hm hni hs
       · simp only [hk, if_false]
         apply invB_stp_in h tid _ hni
         · intro s k' hh
@@ -198,26 +291,48 @@ theorem invB_step {P : Proto} {limit pre I : Nat} {c : Cfg} (h : InvB P limit pr
         · intro s k' hh; cases hh
     · -- passed
       rename_i snap k hpc
-      have hni : (c.threads tid).pc ≠ .idle := by rw [hpc]; simp
+      have hni : inside (c.threads tid).pc = true := by rw [hpc]; rfl
       have hs := old.pas snap k hpc
       split
       · unfold finalStep
         simp only [hf]
-        apply invB_admit h tid hni
+        apply invB_admit h tid hm hni
         exact capOk_mono _ _ _ _ (capOk_succ_of_not_full P limit snap hs.2) (Nat.succ_le_succ hs.1)
       · apply invB_stp_in h tid _ hni
         · intro s k' hh; cases hh
         · intro s k' hh
           simp only [PC.passed.injEq] at hh
           rw [← hh.1]; exact hs
+    · exact h
+    · simp only [hfu, Bool.false_eq_true, if_false]
+      exact h
+  · -- a request of another client
+    rename_i hops
+    have hne : (c.threads tid).ops ≠ [] := by rw [hops]; simp
+    have hI : (c.threads tid).inst = I := old.inst hne
+    split
+    · rename_i hpc
+      simp only [hm, if_true]
+      exact invB_lock h tid hI hpc
+    · exact ⟨base_blk (c' := blkCfg c tid) h.base tid rfl rfl rfl, h.thr, h.excl⟩
+    · rename_i hpc
+      exact invB_noise h tid hm (by rw [hpc]; rfl)
+    · rename_i k hpc
+      have hni : inside (c.threads tid).pc = true := by rw [hpc]; rfl
+      split
+      · exact invB_done h tid hm hni
+      · exact invB_stp_in h tid _ hni (by intro s k hh; cases hh) (by intro s k hh; cases hh)
+    · exact h
+    · exact h
+    · exact h
 
 theorem invB_run {P : Proto} {limit pre I : Nat} (hm : P.mutex = true) (he : P.early = true) (hf : P.final = .plain)
-    (σ : List Nat) (c : Cfg) (h : InvB P limit pre I c) : InvB P limit pre I (run P limit c σ) := by
+    (hfu : P.fused = false) (σ : List Nat) (c : Cfg) (h : InvB P limit pre I c) : InvB P limit pre I (run P limit c σ) := by
   induction σ generalizing c with
   | nil => exact h
   | cons t r ih =>
     simp only [run, List.foldl_cons]
-    exact ih _ (invB_step h t hm he hf)
+    exact ih _ (invB_step h t hm he hf hfu)
 
 theorem invB_init (P : Proto) (limit pre I : Nat) (progs : List (List Op))
     (h : capOk P.zeroUnl limit pre = true) :
@@ -240,6 +355,6 @@ theorem invB_init (P : Proto) (limit pre I : Nat) (progs : List (List Op))
           (fun _ => by rw [← hi])
   · intro i j hi
     simp only [init, mkThreads] at hi
-    split at hi <;> simp [mkThread] at hi
+    split at hi <;> simp [mkThread, inside] at hi
 
 end Tunnox.C17
